@@ -8,7 +8,7 @@ package balancer
 // pktBuffer.push / pop / swap -> tcpSender.sendLoop -> reconnect -> reportWouldBlockIfAny, with
 // egress.go instrumented by tools/vinstr (modelled mutex/cond, virtual time incl. the swap
 // timer, scheduler-owned selects, controlled goroutines, in-memory upstream via vnet.DialHook;
-// bufferLen shrunk to 10 so that the 20% batch threshold, buffer-full and failover states are
+// bufferLen shrunk to 20 (batch threshold 4 packets) so that the 20% batch threshold, buffer-full and failover states are
 // reachable in a few steps). mc.Explore enumerates all schedules / timer orders / upstream
 // failures up to a deviation bound for every arrival pattern of a small family.
 
@@ -67,19 +67,20 @@ func c31Scenarios(thorough bool) []c31Scenario {
 		{name: "two packets back to back", arrivals: g(0, 0)},
 		{name: "sparse 3 x 300ms", arrivals: g(0, 300*ms, 300*ms)},
 		{name: "one, 2s idle, one", arrivals: g(0, 2000*ms)},
+		{name: "trickle below the batch threshold (3 x 400ms after 300ms)", arrivals: g(300*ms, 400*ms, 400*ms)},
 		{heavy: true, name: "mixed 7", arrivals: g(0, 0, 2000*ms, 300*ms, 0, 0, 1200*ms)},
-		{heavy: true, name: "burst 25 (both buffers fill)", arrivals: burst(25)},
+		{heavy: true, name: "burst filling both buffers", arrivals: burst(2*bufferLen + 5)},
 		{name: "lone packet, upstream failures", arrivals: g(0), failures: true},
 		{heavy: true, name: "three packets, upstream failures", arrivals: g(0, 0, 300*ms), failures: true},
 	}
-	twice := append(append(burst(23), c31Arrival{gap: 3000 * ms}), burst(22)...)
-	out = append(out, c31Scenario{heavy: true, name: "two refusal episodes (burst 23, 3s idle, burst 23)", arrivals: twice})
+	twice := append(append(burst(2*bufferLen+3), c31Arrival{gap: 3000 * ms}), burst(2*bufferLen+2)...)
+	out = append(out, c31Scenario{heavy: true, name: "two refusal episodes (burst, 3s idle, burst)", arrivals: twice})
 	two := c31Scenario{name: "two producers", producers: 2, arrivals: []c31Arrival{{0, 0}, {0, 1}, {300 * ms, 0}, {0, 1}}}
 	out = append(out, two)
 	if thorough {
 		out = append(out,
-			c31Scenario{heavy: true, name: "burst 12 then idle (failover)", arrivals: burst(12)},
-			c31Scenario{heavy: true, name: "burst 12 with failures", arrivals: burst(12), failures: true},
+			c31Scenario{heavy: true, name: "burst over one buffer then idle (failover)", arrivals: burst(bufferLen + 2)},
+			c31Scenario{heavy: true, name: "burst over one buffer with failures", arrivals: burst(bufferLen + 2), failures: true},
 			c31Scenario{heavy: true, name: "sparse 5 with failures", arrivals: g(0, 1500*ms, 0, 300*ms, 2000*ms), failures: true},
 		)
 	}
